@@ -49,5 +49,5 @@ fn check() -> Check {
 }
 
 fn main() {
-    vcore::main_with(vec![check()], &[("seed-corpus", corpus::seed_corpus), ("dump", tools::dump), ("sweep", tools::sweep)]);
+    vcore::main_with(vec![check()], &[("seed-corpus", corpus::seed_corpus), ("dump", tools::dump), ("sweep", tools::sweep), ("explain", tools::explain)]);
 }
